@@ -51,7 +51,26 @@ def cells(v):
         return dict(v=None, arr=None, obj=None)
     if v == 'b':
         return dict(v=v, arr=[], obj={})
-    return dict(v=v, arr=[v, 1, 0, False, '', [], {}, None], obj=dict(x=v, zero=0, no=False, empty='', l=[], d={}, nul=None))
+    import datetime
+    from decimal import Decimal
+    # nested decimals and dates are stored the way JSON can hold them: as a float and as ISO text
+    return dict(v=v, arr=[v, 1, 0, False, '', [], {}, None, Decimal('1.5'), datetime.date(2020, 1, 2)],
+                obj=dict(x=v, zero=0, no=False, empty='', l=[], d={}, nul=None, dec=Decimal('2.5'), day=datetime.date(2021, 3, 4)))
+
+
+def jsonable(x):
+    """what a JSON column can hold of a nested value"""
+    import datetime
+    from decimal import Decimal
+    if isinstance(x, dict):
+        return {k: jsonable(v) for k, v in x.items()}
+    if isinstance(x, list):
+        return [jsonable(v) for v in x]
+    if isinstance(x, Decimal):
+        return float(x)
+    if isinstance(x, (datetime.date, datetime.datetime)):
+        return x.isoformat()
+    return x
 
 
 def same_json(a, b):
@@ -79,13 +98,17 @@ def replay_history(item):
                 conf['update_keys'] = ['k']
             import copy
             with contextlib.redirect_stdout(io.StringIO()), contextlib.redirect_stderr(io.StringIO()):
-                ds = Flow(tuple_source([('t', fields, copy.deepcopy(rows), pk)]),
+                other = [dict(q=1, w='keep'), dict(q=2, w=None)]
+                ds = Flow(tuple_source([('t', fields, copy.deepcopy(rows), pk), ('other', [('q', 'integer'), ('w', 'string')], copy.deepcopy(other))]),
                           DF.dump_to_sql(dict(tbl=conf), engine=engine, updated_column='upd', batch_size=c['batch'],
                                          use_bloom_filter=c['bloom'])).datastream()
-                down = [[dict(r) for r in res] for res in ds.res_iter][0]
+                streams = [[dict(r) for r in res] for res in ds.res_iter]
+                down = streams[0]
+                if len(streams) != 2 or streams[1] != other:
+                    return dict(ok=False, why='a resource that is not dumped does not pass through unchanged', got=streams[1:] )
             with engine.connect() as con:
                 tbl = [tuple(r) for r in con.execute(text('select k, v, arr, obj from tbl order by rowid'))]
-            want_tbl = [(r['k'], cells(r['v'])['v'], cells(r['v'])['arr'], cells(r['v'])['obj']) for r in lg['table']]
+            want_tbl = [(r['k'], cells(r['v'])['v'], jsonable(cells(r['v'])['arr']), jsonable(cells(r['v'])['obj'])) for r in lg['table']]
             got_tbl = [(k, v, json.loads(a) if a is not None else None, json.loads(o) if o is not None else None) for k, v, a, o in tbl]
             if variant['pk']:        # an INTEGER PRIMARY KEY is the rowid: insertion order is not observable
                 got_tbl, want_tbl = sorted(got_tbl, key=canon), sorted(want_tbl, key=canon)
@@ -100,7 +123,7 @@ def replay_history(item):
             for r, o in zip(down, rows):
                 for col in ('arr', 'obj'):
                     if r.get(col) != o[col]:
-                        if isinstance(r.get(col), str) and same_json(json.loads(r[col]), o[col]):
+                        if isinstance(r.get(col), str) and same_json(json.loads(r[col]), jsonable(o[col])):
                             kf += 1
                         else:
                             return dict(ok=False, why='array/object cell downstream of dump %d differs' % n, got=r.get(col), want=o[col])
